@@ -322,20 +322,18 @@ Lemma b109_false : forall c e, prop_or_range c && negb (vt_ok c e) = false <->
   (prop_or_range c = true -> vtle c = Some (evt e)).
 Proof.
   intros c e. rewrite <- vt_ok_spec. destruct (prop_or_range c); destruct (vt_ok c e); cbn; split; intro H;
-    try reflexivity; try discriminate; try (intros _; reflexivity).
-  - discriminate (H eq_refl).
-  - intro H0. discriminate.
-  - intro H0. discriminate.
+    try reflexivity; try discriminate; try (intros _; reflexivity);
+    try (discriminate (H eq_refl)); try (intro H0; discriminate).
 Qed.
 
 Lemma l114_none : forall c e l, (forall x, In x l -> elem_ok c x) -> b107 c e = false ->
   (l114 c e l = None <-> (forall y a b, In y l -> esem e = Some a -> esem y = Some b -> b = a)).
 Proof.
-  intros c e l Hok H7. apply b107_false in H7. unfold l114.
+  intros c e l Hok H7'. pose proof (proj1 (b107_false c e) H7') as H7. unfold l114.
   destruct (esem e) as [a|] eqn:Ea.
   - destruct (semle c) as [t|] eqn:Es.
     + split; [|reflexivity]. intros _ y a' b Hy Ha Hb. inversion Ha; subst a'.
-      rewrite (H7 t a eq_refl eq_refl). destruct (Hok y Hy) as (_ & Hy7 & _). exact (Hy7 t b eq_refl Hb).
+      rewrite (H7 t a eq_refl eq_refl). destruct (Hok y Hy) as (_ & Hy7 & _). exact (Hy7 t b Es Hb).
     + rewrite loop114_none. split.
       * intros H y a' b Hy Ha Hb. inversion Ha; subst a'. exact (H y b Hy Hb).
       * intros H y b Hy Hb. exact (H y a b Hy eq_refl Hb).
@@ -357,11 +355,11 @@ Proof.
   destruct (b107 c e) eqn:E7; [discriminate|].
   destruct (prop_or_range c && negb (vt_ok c e)) eqn:E9; [discriminate|].
   pose proof (proj1 (l114_none c e l Hok E7) H) as H114.
-  apply b107_false in E7. apply b109_false in E9.
+  pose proof (proj1 (b107_false c e) E7) as E7'. pose proof (proj1 (b109_false c e) E9) as E9'.
   split; [reflexivity|]. intros l1 l2 ->. split.
   - intros x Hx. apply in_app_or in Hx. destruct Hx as [Hx|[<-|Hx]].
     + apply Hok. apply in_or_app. left. exact Hx.
-    + split; [apply type_ok_spec; exact Et | split; [exact E7 | exact E9]].
+    + split; [apply type_ok_spec; exact Et | split; [exact E7' | exact E9']].
     + apply Hok. apply in_or_app. right. exact Hx.
   - assert (Hin : forall z, In z (l1 ++ e :: l2) -> z = e \/ In z (l1 ++ l2)).
     { intros z Hz. apply in_app_or in Hz. destruct Hz as [Hz|[Hz|Hz]]; [right | left; congruence | right];
@@ -390,7 +388,7 @@ Proof.
       apply type_ok_spec in Ht. congruence. }
   destruct (b107 c e) eqn:E7.
   { inversion H. assert (Hn : ~ (forall s s', semle c = Some s -> esem e = Some s' -> s' = s)).
-    { intro Hc. apply b107_false in Hc. congruence. }
+    { intro Hc. pose proof (proj2 (b107_false c e) Hc). congruence. }
     split.
     - intros (Hok' & _). destruct (Hok' e (or_introl eq_refl)) as (_ & H7 & _). exact (Hn H7).
     - right. left. split; [reflexivity|]. unfold b107 in E7.
@@ -413,7 +411,7 @@ Proof.
     - cbn [orelse] in H. destruct (IH H) as (y & b' & Hy & Hb & Hne). exists y, b'. split; [right; exact Hy | auto]. }
   destruct Hex as (y & b & Hy & Hb & Hne). split.
   - intros (_ & Hpair'). apply Hne. symmetry.
-    exact (Hpair' e y a b (or_introl eq_refl) (or_intror Hy) eq_refl Hb).
+    exact (Hpair' e y a b (or_introl eq_refl) (or_intror Hy) Ea Hb).
   - right. right. right. split; [reflexivity|]. exists y, a, b. auto.
 Qed.
 
